@@ -9,6 +9,7 @@ import (
 	"github.com/luthersystems/elps/analysis"
 	"github.com/luthersystems/elps/lint"
 	"github.com/luthersystems/elps/lisp"
+	"github.com/luthersystems/elps/lisp/lisplib"
 )
 
 // lint: run the arity analyzers of `elps lint` on a source text.
@@ -52,27 +53,44 @@ func init() {
 			fmt.Fprintln(os.Stderr, rc)
 			os.Exit(2)
 		}
-		pkg := env.Runtime.Registry.Package(lisp.DefaultLangPackage)
-		names := pkg.SymbolNames()
-		sort.Strings(names)
-		for _, n := range names {
-			v, _ := pkg.Symbol(n)
-			if v == nil || v.Type != lisp.LFun {
-				continue
+		pkgNames := []string{lisp.DefaultLangPackage}
+		if len(args) > 0 && args[0] == "all" {
+			// every package of the standard library as well, each record carrying its package
+			if rc := lisplib.LoadLibrary(env); rc.Type == lisp.LError {
+				fmt.Fprintln(os.Stderr, rc)
+				os.Exit(2)
 			}
-			kind := "fun"
-			if v.IsMacro() {
-				kind = "macro"
-			} else if v.IsSpecialOp() {
-				kind = "op"
-			}
-			var formals []string
-			if len(v.Cells) > 0 && v.Cells[0].Type == lisp.LSExpr {
-				for _, c := range v.Cells[0].Cells {
-					formals = append(formals, c.Str)
+			pkgNames = env.Runtime.Registry.PackageNames()
+			sort.Strings(pkgNames)
+		}
+		for _, pn := range pkgNames {
+			pkg := env.Runtime.Registry.Package(pn)
+			names := pkg.SymbolNames()
+			sort.Strings(names)
+			for _, n := range names {
+				if pn != lisp.DefaultLangPackage {
+					if lv, _ := env.Runtime.Registry.Package(lisp.DefaultLangPackage).Symbol(n); lv != nil {
+						continue // imported from the language package
+					}
 				}
+				v, _ := pkg.Symbol(n)
+				if v == nil || v.Type != lisp.LFun {
+					continue
+				}
+				kind := "fun"
+				if v.IsMacro() {
+					kind = "macro"
+				} else if v.IsSpecialOp() {
+					kind = "op"
+				}
+				var formals []string
+				if len(v.Cells) > 0 && v.Cells[0].Type == lisp.LSExpr {
+					for _, c := range v.Cells[0].Cells {
+						formals = append(formals, c.Str)
+					}
+				}
+				out.emit(J{"name": n, "kind": kind, "formals": formals, "pkg": pn})
 			}
-			out.emit(J{"name": n, "kind": kind, "formals": formals})
 		}
 	}
 }
